@@ -14,7 +14,7 @@
 using namespace verif;
 
 int main(int argc, char **argv) {
-    std::string genName, cfgText, outPath, markerPath;
+    std::string genName, cfgText, outPath, markerPath, dumpPath;
     size_t nSamples = 4;
     for (int i = 1; i < argc; ++i) {
         std::string a = argv[i];
@@ -23,6 +23,7 @@ int main(int argc, char **argv) {
         else if (a == "--cfg") cfgText = next();
         else if (a == "--out") outPath = next();
         else if (a == "--marker") markerPath = next();
+        else if (a == "--dump") dumpPath = next();
         else if (a == "--samples") nSamples = (size_t)std::atoi(next().c_str());
     }
     if (genName.empty() || outPath.empty()) {
@@ -38,6 +39,7 @@ int main(int argc, char **argv) {
     Stats st(nSamples);
     Marker marker(markerPath);
     rc::Gen<Case> g = makeGen(genName, cfg);
+    FILE *dump = dumpPath.empty() ? nullptr : std::fopen(dumpPath.c_str(), "w");
 
     bool ok = rc::check(genName + " [" + verif_executor_name() + "]", [&]() {
         Case c = *g;
@@ -46,10 +48,14 @@ int main(int argc, char **argv) {
         static verif_result r;
         verif_run_case(text.data(), text.size(), &r);
         st.record(text, r);
+        if (dump)
+            std::fprintf(dump, "{\"digest\": \"%llu\", \"verdict\": %d, \"text\": \"%s\"}\n", r.digest, r.verdict, jsonEscape(text).c_str());
         marker.clear();
         if (r.verdict == 1)
             RC_FAIL(std::string(r.message));
     });
+    if (dump)
+        std::fclose(dump);
     st.finished = true;
     st.passed = ok;
     st.write(outPath);
